@@ -57,12 +57,14 @@ CLAIMED["C06"] = dict(technique="alias families over SSA phi webs (slab / carry-
 CLAIMED["C10"] = dict(technique="reader/constructor census of Range + call-graph reachability of the single interpreter + provenance of offsets + unit agreement",
   text="Decides three structural necessary conditions of field expressions: one interpreter/parser of Range reached by all four consumers; match offsets and positions shifted by the token's prefix length; prefix lengths accumulated in characters. Does not decide tokenizer partition or range arithmetic.",
   note="VTA call graph for reachability through the transformer closures.")
+CLAIMED["C11"] = dict(technique="index chaining over SSA phis (tiling of the input) + provenance of span offsets + SGR tables and extended-colour automaton extracted from the SSA + byte-class partitions of the scanner by constant folding compared with the documented regular expression + result-use/state-carry census",
+  text="Decides seven structural necessary conditions of --ansi stripping/colouring: extractColor tiles its input around the ranges the scanner reports (nothing between sequences dropped, duplicated or re-read; plain input returned as is); span offsets count characters of exactly the written pieces; SGR set/reset attribute table and basic colour ranges are consistent; the 38/48;5 and 38/48;2 automaton combines its parameters in order; every byte class the scanner branches on equals the class of the documented regular expression; line processors use the stripped text/spans and carry the returned state. Does not decide equivalence of the scanner with the regular expression on all strings (length guards, UTF-8 widths, backtracking) nor span well-formedness.",
+  note="Byte classes are obtained by folding the SSA of the scanner over the 256 values of one byte read (no code is executed); the documented regex is held as five alternatives in the checker.")
 NA = {
 }
 ALL = ["C%02d" % i for i in range(1, 21)]
 PENDING_REASON = "check not built yet in this revision of /verif (see DESIGN.md section 0 for the planned structural clauses); nothing is claimed for it here"
 FIXED_NA = {
- "C11": "equivalence of a hand-written scanner with a regular expression and of interpretCode with a terminal's SGR state machine over all byte strings: language/state-machine equivalence, no structural clause is a necessary condition (DESIGN.md C11)",
  "C15": "relation between the whole runtime state and the emitted bytes for every history and geometry with an incremental-redraw cache; a mutate-implies-redraw lint needs more exceptions than rules (DESIGN.md C15)",
 }
 def main():
